@@ -57,6 +57,24 @@ CLAIMED = {
              "(pure-Python implementation), CPython. Whether every valid "
              "declaration is accepted is not part of the statement: "
              "refusals are followed and counted, not judged."),
+    'C16': dict(
+        ref='DESIGN.md 4.4',
+        technique="deterministic simulation, differential: a history with "
+                  "injected rejected declarations / converter updates runs "
+                  "in one forked world, the same history with the rejected "
+                  "steps deleted in a twin world; observation vectors are "
+                  "compared after every step; ddmin-minimised replay files",
+        text="Seeded exploration of histories in which any subset of steps "
+             "is a declaration or converter update the library rejects (all "
+             "kinds named by the statement, at every position), each "
+             "compared step by step with its fault-free twin on everything "
+             "visible through the public API, including later valid "
+             "declarations that re-use the symbol or dimension of a "
+             "rejected one. Bounded (<=40 steps) and sampled.",
+        note="Trusted: the executor shared by both worlds, decimalfp "
+             "(pure-Python implementation), CPython. A defect that is "
+             "identical with and without the rejected steps is invisible "
+             "to this oracle by construction."),
 }
 NA = {
     'C01': "pure function of (amount, unit, unit) once units are declared; no schedule, clock, fault or history in the statement. The residue 'a declared chain has the scale it denotes' is exercised by the C15 check.",
